@@ -72,6 +72,7 @@ def events(p):
 
 
 def run(ck):
+    ck.rule('C12.g', 'the payload the encoder frames comes through a source, and the encoder takes an answer of 0 for the end of the payload: the library\'s own buffer and chunk-list sources deliver every unread octet in order and answer "no more" only when none is left (C17.g re-evaluated)')
     ck.rule('C12.f', 'sink_put_chunk, through which the encoder writes its escape pairs, returns a hard driver error unchanged and never reports a pair as written when one octet was refused (C17.a-d re-evaluated)')
     ck.rule('C12.a', 'escape tables: encoder maps ESC->(ESC,ESC_ESC), END->(ESC,ESC_END), any other octet to itself; the decoder map is the inverse; no escape sequence contains END')
     ck.rule('C12.b', 'cost: at most 2 octets emitted per consumed octet, open emits at most 1 (only with start-of-frame), close exactly 1; RFC1055_WORST_CASE(n,sof) = 2n+1 / 2n+2 (compiler-evaluated)')
@@ -475,6 +476,8 @@ def run(ck):
     from .common import reevaluate
     reevaluate(ck, 'C12.f', 'c17', lambda r, k: r in ('C17.a', 'C17.b', 'C17.c', 'C17.d') and k.startswith(('sink_put_chunk', 'sink_adapt')),
                'escape pairs are written with sink_put_chunk: it returns a driver error unchanged and writes both octets or fails')
+    reevaluate(ck, 'C12.g', 'c17', lambda r, k: r == 'C17.g',
+               'the encoder is fed through the buffer / chunk-list sources and stops at an answer of 0 or -ENODATA: they answer so only when no unread octet is left')
 
 def oracle_table():
     """DESIGN appendix A.4.  key (state, events, mode) -> (next, result, emitted)"""
